@@ -27,6 +27,13 @@ def add_interrupts(rng, g, k):
         n["kind"] = "interrupt"
         n["fn"] = ["const", None]
         n["emit"], n["wait_for"] = [], []
+        if g.get("ext") and rng.random() < 0.4:
+            # the interrupt also emits an ordering signal that a node downstream waits for: that node is a dependant too
+            sig = f"sig_{n['name']}"
+            n["emit"] = [sig]
+            g["nodes"].append({"name": f"aft_{n['name']}", "kind": "func", "inputs": [rng.choice(g["ext"])], "outputs": [f"aft_{n['name']}_o"],
+                               "emit": [], "wait_for": [sig], "defaults": {}, "fn": ["sym", f"aft_{n['name']}"]})
+    rng.shuffle(g["nodes"])
     return g, [n["name"] for n in chosen]
 
 
